@@ -218,7 +218,7 @@ Record config := mkConfig {
   c_nfut : nat;
   c_scripts : list (list (nat * cop));     (* one script per client thread; ops carry their index *)
   c_fn : Z -> Z;                           (* the started function (argument -> return value) *)
-  c_fixed : bool                           (* true: the code after fixes/C10/01+02+03 (what the tree is
+  c_fixed : bool                           (* true: the code after fixes/C10/01-03 (what the tree is
                                               now); false: the sleep/wake handshake as it was (only
                                               used by the refutation theorems) *)
 }.
